@@ -39,6 +39,96 @@ fn canon_num(n: &NNum, out: &mut String) {
     }
 }
 
+fn canon_f64_class(f: f64, out: &mut String) {
+    if f.is_nan() {
+        out.push_str("NaN");
+    } else if f.is_infinite() {
+        out.push_str(if f > 0.0 { "+inf" } else { "-inf" });
+    } else {
+        let q = num::BigRational::from_float(f).unwrap();
+        out.push_str(&q.numer().to_string());
+        out.push('/');
+        out.push_str(&q.denom().to_string());
+    }
+}
+
+/// a number up to `==`: exact value whatever the level or representation (mirrors val::canon_key)
+fn canon_num_class(n: &NNum, out: &mut String) {
+    out.push('n');
+    match n {
+        NNum::Int(i) => {
+            out.push_str(&i.to_bigint().to_string());
+            out.push_str("/1");
+        }
+        NNum::Rational(r) => {
+            out.push_str(&r.numer().to_string());
+            out.push('/');
+            out.push_str(&r.denom().to_string());
+        }
+        NNum::Float(f) => canon_f64_class(*f, out),
+        NNum::Complex(z) => {
+            if z.re.is_nan() || z.im.is_nan() {
+                out.push_str("NaN");
+            } else {
+                canon_f64_class(z.re, out);
+                if z.im != 0.0 {
+                    out.push('|');
+                    canon_f64_class(z.im, out);
+                }
+            }
+        }
+    }
+}
+
+/// canonical text of a dictionary key up to key equality (see val::canon_key)
+pub fn canon_key_obj(o: &Obj, out: &mut String) {
+    match o {
+        Obj::Num(n) => canon_num_class(n, out),
+        Obj::Seq(Seq::Vector(xs)) => {
+            out.push_str("v[");
+            for (i, x) in xs.iter().enumerate() {
+                if i > 0 {
+                    out.push(',');
+                }
+                canon_num_class(x, out);
+            }
+            out.push(']');
+        }
+        Obj::Seq(Seq::List(xs)) => {
+            out.push('[');
+            for (i, x) in xs.iter().enumerate() {
+                if i > 0 {
+                    out.push(',');
+                }
+                canon_key_obj(x, out);
+            }
+            out.push(']');
+        }
+        Obj::Seq(Seq::Dict(d, _)) => {
+            let mut items: Vec<(String, String)> = Vec::new();
+            for (k, v) in d.iter() {
+                let mut ks = String::new();
+                canon_key_obj(&key_to_obj(k.clone()), &mut ks);
+                let mut vs = String::new();
+                canon_key_obj(v, &mut vs);
+                items.push((ks, vs));
+            }
+            items.sort();
+            out.push('{');
+            for (i, (k, v)) in items.iter().enumerate() {
+                if i > 0 {
+                    out.push(',');
+                }
+                out.push_str(k);
+                out.push(':');
+                out.push_str(v);
+            }
+            out.push('}');
+        }
+        other => canon_obj_into(other, out),
+    }
+}
+
 pub fn canon_obj_into(o: &Obj, out: &mut String) {
     match o {
         Obj::Null => out.push('N'),
@@ -75,7 +165,7 @@ pub fn canon_obj_into(o: &Obj, out: &mut String) {
             let mut items: Vec<(String, String)> = Vec::new();
             for (k, v) in d.iter() {
                 let mut ks = String::new();
-                canon_obj_into(&key_to_obj(k.clone()), &mut ks);
+                canon_key_obj(&key_to_obj(k.clone()), &mut ks);
                 let mut vs = String::new();
                 canon_obj_into(v, &mut vs);
                 items.push((ks, vs));
@@ -189,6 +279,7 @@ pub fn obj_to_v(o: &Obj, struct_names: &[String]) -> Option<V> {
             }
             items.sort_by(|a, b| a.0.cmp(&b.0));
             V::Dict(Dict {
+                amb: false,
                 entries: items.into_iter().map(|(_, k, v)| (k, v)).collect(),
                 default: match def {
                     Some(dv) => Some(Box::new(obj_to_v(dv, struct_names)?)),
